@@ -41,6 +41,10 @@ def main():
                 pool = [t for t in backends.NP.DTYPES if t is not _np.int64]
                 backends.NP.DTYPES = (pool[(seed + shard.get("salt", 0)) % len(pool)], _np.int64)
             rec.note("element_types", [_np.dtype(t).name for t in backends.NP.DTYPES])
+        if shard.get("pyopt"):
+            rec.note("python_optimize", sys.flags.optimize)
+            if not sys.flags.optimize:
+                rec.inconclusive("pyopt shard did not run with -O")
         hooks = []
         if not shard.get("no_hooks"):
             for b in (B if isinstance(B, tuple) else (B,)):
